@@ -271,6 +271,10 @@ func c20Once(c *core.Case, o *core.Outcome, p *c20Params, spec engine.Spec, l *e
 		return
 	}
 	if len(its) != p.N {
+		if su, fa, _ := resultCounts(r); int(su+fa) == p.N && len(its) < p.N {
+			o.Violate(key, "the result counts %d iterations (%d successful, %d failed) but only %d of them invoked the first component's iteration function: some iterations ran no component at all (%s)", su+fa, su, fa, len(its), desc)
+			return
+		}
 		o.Inconc("%d iterations observed, expected %d (%s)", len(its), p.N, desc)
 		return
 	}
